@@ -46,10 +46,15 @@ def render(dirs, lay):
             pad = b" " * rng.randint(0, 3)
             if r < 0.3:
                 out.extend(pad + lay.nl)
-            elif r < 0.7:
+            elif r < 0.55:
                 out.extend(pad + b"# comment " + bytes([rng.randint(0x41, 0x5a)]) + lay.nl)
+            elif r < 0.7:
+                # the text of a line comment is arbitrary: comment signs, keywords, parentheses
+                out.extend(pad + rng.choice([b"# see #12 and #13", b"## double", b"# a ### b", b"#a#b#c", b"# GET /x ( )", b"#", b"# tail #",
+                                             b"# \"quoted\" // not an annotation", b"# caf\xc3\xa9"]) + lay.nl)
             else:
-                out.extend(pad + b"###" + lay.nl + b" block " + lay.nl + b"###" + lay.nl)
+                out.extend(pad + rng.choice([b"###" + lay.nl + b" block " + lay.nl + b"###", b"### one line ###", b"###" + lay.nl + b"# inner # signs ## x" + lay.nl + b"###",
+                                             b"###" + lay.nl + b"GET /not-a-directive" + lay.nl + b"###"]) + lay.nl)
 
     def emit(d, depth):
         trivia(depth)
